@@ -133,15 +133,34 @@ class SmartList(list):
             raise ValueError("List only supports elements of type '%s'" %
                              self._content_type)
 
+        if not isinstance(key, int):
+            raise TypeError("List items can only be replaced by index position.")
+
+        # Make sure nothing is changed in case the replacement has to be refused.
+        replaced = super(SmartList, self).__getitem__(key)
+        if replaced is value:
+            return
+
+        for obj in self:
+            if obj is not replaced and hasattr(obj, "name") and obj.name == value.name:
+                raise KeyError("Object with the same name already exists! " + str(value))
+
+        # The new object must not be the owner of this list or one of its ancestors.
+        curr = getattr(replaced, "_parent", None)
+        while curr is not None:
+            if curr is value:
+                raise ValueError("Cannot add an object to itself or to one of its descendants.")
+            curr = curr.parent
+
         # If required remove new object from its old parents child-list
-        if hasattr(value, "_parent") and (value._parent and value in value._parent):
+        if hasattr(value, "_parent") and value._parent is not None:
             value._parent.remove(value)
 
         # If required move parent reference from replaced to new object
         # and set parent reference on replaced object None.
-        if hasattr(self[key], "_parent"):
-            value._parent = self[key]._parent
-            self[key]._parent = None
+        if hasattr(replaced, "_parent"):
+            value._parent = replaced._parent
+            replaced._parent = None
 
         super(SmartList, self).__setitem__(key, value)
 
